@@ -20,7 +20,7 @@ Qed.
 Lemma plain_scalar_below tag v l c a :
   tag <> mapTag -> tag <> seqTag -> tag <> mergeTag -> tag <> nullTag -> plain_below (Sc tag v l c a).
 Proof.
-  intros. apply plain_below_intro; [|intros ? []]. split; [reflexivity|]. cbn. repeat split; auto. intro; contradiction.
+  intros. apply plain_below_intro; [|intros ? []]. split; [reflexivity|]. cbn. repeat split; auto.
 Qed.
 
 Definition e_t := Sc "!!str" "up == 0" 5 11 65975.
@@ -87,7 +87,7 @@ Proof.
     intros gn H. cbn in H. inv_in H. split.
     + pmap. eexists [(_, _); (_, _)]. split; [reflexivity|]. intros k v H. inv_in H; discriminate.
     + intros k v H. cbn in H. inv_in H.
-      * split; [psc|]. split; [intros X; discriminate X|]. intros _. psc.
+      * split; [psc|]. split; [intros X; discriminate X|]. intros _. apply plain_leaf. psc.
       * split; [psc|]. split; [|intros X; exfalso; apply X; reflexivity]. intros _. split; [pmap|].
         intros rn H. cbn in H. inv_in H; [left; exact r1_guard|left; exact r2_guard].
 Qed.
@@ -140,7 +140,7 @@ Proof.
     intros gn H. cbn in H. inv_in H. split.
     + pmap. eexists [(_, _); (_, _)]. split; [reflexivity|]. intros k v H. inv_in H; discriminate.
     + intros k v H. cbn in H. inv_in H.
-      * split; [psc|]. split; [intros X; discriminate X|]. intros _. psc.
+      * split; [psc|]. split; [intros X; discriminate X|]. intros _. apply plain_leaf. psc.
       * split; [psc|]. split; [|intros X; exfalso; apply X; reflexivity]. intros _. split; [pmap|].
         intros rn H. cbn in H. inv_in H.
         -- left. apply plain_rule_guard. exact m_base_plain.
